@@ -48,6 +48,7 @@ type relay struct {
 	f        *fault
 	applied  int32
 	absOff   int64 // resolved absolute offset of the fault (valid once applied)
+	hsLen    int64 // length of the handshake packet of the faulted direction
 	last     int64 // unix nano of last forwarded byte
 	wg       sync.WaitGroup
 	closeOne sync.Once
@@ -169,6 +170,7 @@ func (rl *relay) pump(dst, src net.Conn, dir int) {
 			data = nil
 			if len(held) >= 2 {
 				hsLen := 2 + int(binary.BigEndian.Uint16(held))
+				atomic.StoreInt64(&rl.hsLen, int64(hsLen))
 				if f.Region == "hs" {
 					a = f.Off % hsLen
 					if f.Kind == "dup" && a == hsLen-1 && a > 0 {
